@@ -213,7 +213,8 @@ func (t *trSys) restart(addr string) {
 		return
 	}
 	t.start(addr)
-	vs.Block("wait for the listener", func() bool { l := t.n.lis[addr]; return l != nil && !l.closed })
+	// until the server has registered its listener and accepts (a Close issued before that has no effect on it)
+	vs.Block("wait for the listener", func() bool { l := t.n.lis[addr]; return l != nil && !l.closed && l.accepting })
 	t.settle()
 	t.log = append(t.log, "restart("+addr+")")
 }
